@@ -3,12 +3,30 @@ from specs import KEYS, CHECKS, unit
 KEYS['keepstore_c01'] = {'pkg': 'services/keepstore'}
 
 CHECKS['C01'] = {
-    'ready': False,
+    'ready': True,
     'level': 'exploration',
-    'rule': 'placeholder',
-    'assumptions': [],
+    'rule': 'one real keepstore handler (handler.setup, 1-3 Directory volumes in a scratch dir on /dev/shm, each rw / ReadOnly by '
+            'config / ReadOnly via AccessViaHosts, generated probe order) per case; block size from {0,1,2,31..33,4K+-1,64K+-1,'
+            '256K+-1,1M+-1,random<=3MiB} (thorough adds 64MiB-1, 64MiB, 64MiB+1); every volume starts absent/intact/corrupt '
+            '(bit flip, truncation, zero length, appended bytes, other block of same/other length, sparse growth past 64 MiB); '
+            'then 3-7 steps of GET/HEAD (with and without hints, direct and over a real HTTP connection), PUT correct body, '
+            'PUT wrong body (incl. the corrupt bytes already on disk), PUT with Content-Length != bytes sent, and re-corruption '
+            'of a volume between requests. Non-trivial = some request was served while a corrupt copy of the block was on a '
+            'volume, or a PUT arrived while a copy (intact or corrupt) already existed. distinct = fingerprint of '
+            '(size class, per-volume mode+initial state, script)',
+    'assumptions': [
+        'Directory (UnixVolume) driver only; volumes are tmpfs directories',
+        'the buffer pool is shared by all handlers of a test process (as in one long-running keepstore), so buffers carry stale bytes of earlier blocks',
+        'volume probe order is set by the harness to a generated permutation (every order is one that handler.setup can produce from map iteration)',
+        'findmnt is kept out of PATH (blank DeviceID), which the property does not depend on',
+        'no real MD5 collisions are generated',
+    ],
+    'technique': 'property-based testing (rapid) with a file-level oracle: intactness is decided by comparing the files under the volume roots with the generated block',
     'units': [
-        unit('script', 'keepstore_c01', '^TestVerifC01Script$', {'shards': 16, 'checks': 60}, {'shards': 16, 'checks': 1500, 'timeout': 1500}),
-        unit('boundary', 'keepstore_c01', '^TestVerifC01Boundary$', None, {'shards': 1, 'checks': 8, 'timeout': 900}),
+        unit('script', 'keepstore_c01', '^TestVerifC01Script$',
+             {'shards': 16, 'checks': 60}, {'shards': 16, 'checks': 1500, 'timeout': 1800}),
+        # 64 MiB boundary: a few cases, one process (each case moves several hundred MiB)
+        unit('boundary', 'keepstore_c01', '^TestVerifC01Boundary$',
+             None, {'shards': 1, 'checks': 12, 'timeout': 1500}),
     ],
 }
